@@ -131,6 +131,11 @@ func mergeModifyRow(ts *ovsdb.TableSchema, o, a, b *ovsdb.Row) *ovsdb.Row {
 			if o == nil {
 				// assume zero value if original does not have the column
 				o = reflect.Zero(reflect.TypeOf(v)).Interface()
+				if uuid, ok := v.(ovsdb.UUID); ok && ovsdb.IsDefaultValue(ts.Column(k), uuid.GoUUID) {
+					// the default UUID is omitted from the original row in
+					// both of its representations (empty and all zeros)
+					o = v
+				}
 			}
 			if set, ok := o.(ovsdb.OvsSet); ok {
 				// atomic optional values are cleared out with an empty set
